@@ -713,6 +713,14 @@ Fixpoint transfer_kids (rec : units -> ust -> fres transfer_result) (fx : flat_f
       end
   end.
 
+(* The model in which the references of u are resolved by Units::equivalent: S, or nothing for a parent-less clone.  A
+   parent-less units with unit children is listed under a name no reference can have (its own name is then irrelevant to
+   Units::equivalent, and a reference to a units of its own name must not find it: it has no model). *)
+Definition orphan_name : string := " ".
+Definition orphan_home (u : units) : units := match u_defs u with [] => u | _ => u_set_name orphan_name u end.
+Definition transfer_home (orphan : bool) (u : units) (s : ust) : list units := if orphan then [orphan_home u] else us_S s.
+Definition transfer_qname (orphan : bool) (u : units) : string := if orphan then u_name (orphan_home u) else u_name u.
+
 (* importer.cpp: transferUnitsRenamingIfRequired(sourceModel = S, targetModel = T, units = u, component).
    orphan = true: u is a parent-less clone; false: u is the first units of S with its name.
    Result: state, "u was added to T", changedNames, the name of u afterwards. *)
@@ -721,8 +729,8 @@ Fixpoint transfer (fuel : nat) (fx : flat_fixes) (libs : list model) (orphan : b
   match fuel with
   | O => FFuel
   | S f =>
-      let home := if orphan then [u] else us_S s in
-      do target <- models_equivalent_units libs (us_T s) home (u_name u) (us_T s);
+      let home := transfer_home orphan u s in
+      do target <- models_equivalent_units libs (us_T s) home (transfer_qname orphan u) (us_T s);
       match target with
       | None =>
           do r <- transfer_kids (transfer f fx libs true) fx (List.length (u_defs u)) 0 u s;
